@@ -1,11 +1,11 @@
 #!/bin/bash
-# tools/process_round.sh <prefix> <property>...   confirm (in the sub-agents' worktrees, six at a
-# time) and try (in the scratch area, one after the other; /repo untouched) the two changes
+# tools/process_round.sh <prefix> <property>...   confirm (in the sub-agents' worktrees, six properties at a
+# time, the two changes of a property one after the other) and try (in the scratch area, one after the other; /repo untouched) the two changes
 # of each property.  Output: one "=== <prop> <A|B>" block per change.
 pre="$1"; shift
 crates_of() { case $1 in C16) echo "-p trippy-core -p trippy-tui";; C17|C18) echo "-p trippy-tui";; *) echo "-p trippy-core -p trippy-packet";; esac; }
 export -f crates_of
-for p in "$@"; do for m in A B; do echo "$p $m"; done; done | xargs -P 6 -L 1 bash -c 'p=$0; m=$1; CRATES="$(crates_of $p)" /verif/tools/confirm_mutant.sh /tmp/'"$pre"'-$p $m > /tmp/'"$pre"'-confirm-$p-$m.log 2>&1'
+printf "%s\n" "$@" | xargs -P 6 -I{} bash -c 'p={}; for m in A B; do CRATES="$(crates_of $p)" /verif/tools/confirm_mutant.sh /tmp/'"$pre"'-$p $m > /tmp/'"$pre"'-confirm-$p-$m.log 2>&1; done'
 for p in "$@"; do
   for m in A B; do
     echo "=== $p $m"
